@@ -54,6 +54,7 @@ def validate_chunk(wd, idx, hs, invs, probes=True, module="TraceNet.tla"):
 
 
 def run_chunks(wd, histories, invs, chunk=400, par=4, probes=True, module="TraceNet.tla"):
+    build_harness()     # never validate with a binary older than the tree (cheap when nothing changed)
     chunks = [histories[i:i + chunk] for i in range(0, len(histories), chunk)]
     results = []
     with ThreadPoolExecutor(max_workers=par) as ex:
